@@ -5,3 +5,4 @@ import SparseV.Props.C17
 #print axioms SparseV.C17.spellings_agree_partial
 #print axioms SparseV.C17.spellings_agree_counterexample
 #print axioms SparseV.C17.ufunc_route
+#print axioms SparseV.C17.outer_operand_order
